@@ -40,6 +40,7 @@ def render_slots(ci):
     carriers = carriers - ex.tags.sub(r.cls("terms.Index")) - ex.tags.sub(r.cls("terms.PseudoColumn")) - \
         ex.tags.sub(r.cls("terms.Parameter"))
     out = set()
+    indirect = False
     for o in run.outcomes:
         if o.status == "raise":
             continue
@@ -52,6 +53,21 @@ def render_slots(ci):
             rk = recv_key(ex, ef, o.state)
             if rk.startswith("self."):
                 out.add(rk)
+            else:
+                indirect = True
+    # a slot may reach the text through an intermediate object built during rendering
+    # (`Criterion.all(self._filters).get_sql(ctx)`): when get_sql renders such an object, every slot it reads whose
+    # declared type is Node / list[Node] counts as rendered
+    if indirect:
+        have = {x.replace("[*]", "").split(".")[1] for x in out}
+        for pth, n in sorted(ex.reads_global):
+            if pth != "self" or n in have:
+                continue
+            spec = (ex.slot_spec(ci, n) or "").replace(" ", "")
+            if spec == "list[Node]":
+                out.add(f"self.{n}[*]")
+            elif spec in ("Node", "Node|None"):
+                out.add(f"self.{n}")
     return out, None
 
 
